@@ -365,9 +365,28 @@ pub fn run(tier: &str, replay: Option<&str>) -> i32 {
         }
         rep.report_bag(&r["violations"]);
     }
-    ev.set("evaluations", tot["faults"]);
-    ev.set("distinct_nontrivial", tot["refused"]);
-    ev.set("rule", "for each clean-shutdown directory (fixed histories with snapshots, rotated and compacted segments, several sessions): every file x (every single bit flip | every truncation length | deletion), each recovered with strict HnswBackend::recover; non-trivial = faults that strict recovery refuses (detected damage); a fault passes if recovery refuses or the dump equals the pre-damage dump; faults on the newest WAL segment whose outcome equals the outcome of some plain truncation of that segment are the excluded torn-tail case");
+    // server-level slice: the real binary on directories it produced itself (srvmc C13S)
+    let mut srv_faults = 0u64;
+    let mut srv_refused = 0u64;
+    match run_server_slice(tier) {
+        Ok(v) => {
+            srv_faults = v["faults"].as_u64().unwrap_or(0);
+            srv_refused = v["refused"].as_u64().unwrap_or(0);
+            rep.report_bag(&v["violations"]);
+            ev.set("server_slice_launches_of_the_real_binary", v["launches"].clone());
+            ev.set("server_slice_faults", v["faults"].clone());
+            ev.set("server_slice_refused_to_start", v["refused"].clone());
+            ev.set("server_slice_started_and_served_pre_damage_collection", v["started_equal"].clone());
+            ev.set("server_slice_outcomes", v["outcomes"].clone());
+        }
+        Err(e) => {
+            eprintln!("C13: machinery error in the server-level slice: {e}");
+            return 2;
+        }
+    }
+    ev.set("evaluations", tot["faults"] + srv_faults);
+    ev.set("distinct_nontrivial", tot["refused"] + srv_refused);
+    ev.set("rule", "server level: directories produced by the REAL server binary (gRPC writes, SIGTERM), every file x {deletion, truncation to 0 / half, bit flip at first / middle / last byte} (truncations of the newest segment excluded), the real binary is started on the damaged copy: it must exit before its port opens, or serve (Query over gRPC) exactly what it serves from the undamaged directory. engine level: for each clean-shutdown directory (fixed histories with snapshots, rotated and compacted segments, several sessions): every file x (every single bit flip | every truncation length | deletion), each recovered with strict HnswBackend::recover; non-trivial = faults that strict recovery refuses (detected damage); a fault passes if recovery refuses or the dump equals the pre-damage dump; faults on the newest WAL segment whose outcome equals the outcome of some plain truncation of that segment are the excluded torn-tail case");
     ev.set("samples", Value::Array(samples));
     ev.set("exhaustive", true);
     ev.set("refused", tot["refused"]);
@@ -390,9 +409,37 @@ pub fn run(tier: &str, replay: Option<&str>) -> i32 {
     rep.finish()
 }
 
+fn run_server_slice(tier: &str) -> Result<Value, String> {
+    let bin = std::env::var("SRVMC_BIN").map_err(|_| "SRVMC_BIN not set (run through bin/check)".to_string())?;
+    let out = std::process::Command::new(&bin).arg("C13S").arg(tier).output().map_err(|e| format!("cannot run {bin}: {e}"))?;
+    let stdout = String::from_utf8_lossy(&out.stdout);
+    let line = stdout.lines().find_map(|l| l.strip_prefix("C13S-RESULT ")).ok_or_else(|| format!("no result line; exit {:?}; stderr: {}", out.status.code(), String::from_utf8_lossy(&out.stderr)))?;
+    serde_json::from_str(line).map_err(|e| format!("bad result: {e}"))
+}
+
 fn run_replay(path: &str) -> i32 {
     let v: Value = serde_json::from_str(&std::fs::read_to_string(path).expect("read")).expect("json");
     let case = &v["case"];
+    if case["check"] == "C13S" {
+        // server-level cases: re-run the slice and look for the same signature
+        let sig = v["signature"].as_str().unwrap_or("").to_string();
+        return match run_server_slice("thorough") {
+            Ok(r) => {
+                if r["violations"].as_array().map(|a| a.iter().any(|x| x["sig"] == sig.as_str())).unwrap_or(false) {
+                    println!("replay: reproduced {sig}");
+                    println!("VIOLATION property=C13 replay={path}");
+                    1
+                } else {
+                    println!("replay: no violation with signature {sig}");
+                    0
+                }
+            }
+            Err(e) => {
+                eprintln!("machinery error: {e}");
+                2
+            }
+        };
+    }
     let cfg: BackendCfg = serde_json::from_value(case["cfg"].clone()).unwrap();
     let ops: Vec<Op> = serde_json::from_value(case["history"].clone()).unwrap();
     let scratch = Scratch::new("c13replay");
